@@ -65,12 +65,20 @@ func replayOne(r *core.Run) {
 		opt, _ := rec.Detail["options"].(map[string]interface{})
 		v := variant{name: str(rec.Key, "variant"), syntax: flag(opt, "minifySyntax"), whitespace: flag(opt, "minifyWhitespace"),
 			identifiers: flag(opt, "minifyIdentifiers"), keepNames: flag(opt, "keepNames"), bundle: flag(opt, "bundle")}
-		out, err := build(input, v)
+		v.mode = str(opt, "constants")
+		var out string
+		var err error
+		if v.mode != "" {
+			out, err = buildXc(input, v, r.Scratch)
+		} else {
+			out, err = build(input, v)
+		}
 		if err != nil {
 			r.Infra("esbuild rejects the replayed input: %v", err)
 			return
 		}
-		in.Jobs = []job{{ID: "replay", Srcs: []string{input, out}, Units: []unit{{ID: "0", Call: "main(__env.a, __env.b)", EnvSet: "q", Want: []int{}}}}}
+		family := str(rec.Detail, "family")
+		in.Jobs = []job{{ID: "replay", Srcs: []string{referencePrelude(family) + input, out}, Units: []unit{{ID: "0", Call: "main(__env.a, __env.b)", EnvSet: envSetOf(family), Want: []int{}}}}}
 	default:
 		r.Infra("replay of kind %q is not supported (re-run the tier instead)", kind)
 		return
